@@ -15,7 +15,7 @@ DevSnapNever == {"BootstrapUnderSnapshot", "BootcheckNeverHits"}
 \* file: a context that is open on the database would itself have restored the backup)
 \* prov/rdr: see Workers (provenance of the files / which workers keep the cursor); the families
 \* below this block keep the files "built" and the cursor on every worker
-Old(S) == {[bak |-> s.bak, boot |-> s.boot, cursor |-> s.cursor, drv |-> s.drv, prov |-> "built", rdr |-> 0] : s \in S}
+Old(S) == {[bak |-> s.bak, boot |-> s.boot, cursor |-> s.cursor, drv |-> s.drv, prov |-> "built", rdr |-> 0, bkd |-> FALSE] : s \in S}
 ScnPlain == Old([bak : BOOLEAN, boot : BOOLEAN, cursor : BOOLEAN, drv : {FALSE}])
 ScnDrv == Old([bak : {FALSE}, boot : BOOLEAN, cursor : BOOLEAN, drv : {TRUE}])
 ScnNoCursor == Old([bak : BOOLEAN, boot : BOOLEAN, cursor : {FALSE}, drv : {FALSE}])
@@ -28,16 +28,23 @@ ScnLifeNoCursor == Old([bak : {FALSE}, boot : BOOLEAN, cursor : {FALSE}, drv : B
 \* context (re-run), files in rollback-journal mode, and - on all of them and on the built files - a
 \* single long-lived reader (worker 1 or worker 2) beside workers without cursor
 ProvOk(s) == (s.prov = "lib" => s.bak) /\ ~(s.prov = "built" /\ s.rdr = 0)
-ScnRW == {s \in [bak : BOOLEAN, boot : BOOLEAN, cursor : {TRUE}, drv : {FALSE}, prov : {"built", "lib", "rbj"}, rdr : {0, 1, 2}] : ProvOk(s)}
+ScnRW == {s \in [bak : BOOLEAN, boot : BOOLEAN, cursor : {TRUE}, drv : {FALSE}, prov : {"built", "lib", "rbj"}, rdr : {0, 1, 2}, bkd : {FALSE}] : ProvOk(s)}
 \* quick tier: every reader pattern on the restored backup, one rollback-journal and one built file per single reader
 ScnRWq == {s \in ScnRW : ~s.boot /\ (s.prov = "lib" \/ (s.prov = "rbj" /\ (s.bak <=> s.rdr = 2) /\ s.rdr # 0)
                                                \/ (s.prov = "built" /\ (s.bak <=> s.rdr = 1)))}
 \* start-up on such files (who establishes WAL, in every interleaving of two start-ups)
-ScnProvStart == {s \in [bak : BOOLEAN, boot : {FALSE}, cursor : {FALSE}, drv : {FALSE}, prov : {"lib", "rbj"}, rdr : {0}] : ProvOk(s)}
+ScnProvStart == {s \in [bak : BOOLEAN, boot : {FALSE}, cursor : {FALSE}, drv : {FALSE}, prov : {"lib", "rbj"}, rdr : {0}, bkd : {FALSE}] : ProvOk(s)}
 ScnProv == ScnRW \cup ScnProvStart
 ScnProvQ == ScnRWq \cup ScnProvStart
+\* a restore WHILE ANOTHER LIVE PROCESS HAS THE DATABASE OPEN: the creating context wrote the backup with backup_db(),
+\* went on storing pages (the backup holds version B, the database version M) and is still open when the workers start
+\* (bak), or it writes the backup at some moment while workers are open (bkd: the backup is a copy of the database as
+\* it is then; workers that are open stay on the replaced file, every later worker restores)
+ScnRestoreLive == {[bak |-> b, boot |-> t, cursor |-> c, drv |-> TRUE, prov |-> IF b THEN "lib" ELSE "built", rdr |-> 0, bkd |-> ~b]
+                   : b \in BOOLEAN, t \in BOOLEAN, c \in BOOLEAN}
+ScnRestoreLiveQ == {s \in ScnRestoreLive : ~s.cursor}
 ScnAll == ScnPlain \cup ScnDrv
-ScnAllP == ScnAll \cup ScnProv
+ScnAllP == ScnAll \cup ScnProv \cup ScnRestoreLive
 \* 3 workers, quick tier: one representative of every provenance / reader pattern
 ScnAllQ == ScnAll \cup {s \in ScnProv : ~s.boot /\ s.rdr # 2 /\ (s.bak <=> s.prov = "lib")}
 ScnSafe == Old([bak : {FALSE}, boot : BOOLEAN, cursor : {FALSE}, drv : BOOLEAN])
@@ -55,4 +62,10 @@ DevTidy == {"BootcheckNeverHits", "CloseRemovesSideFiles"}
 \* With two workers the deviation is invisible (nobody writes after the loser): MC_Workers_skip_two.cfg
 ScnBoot3 == Old([bak : {FALSE}, boot : BOOLEAN, cursor : {FALSE}, drv : {FALSE}])
 DevSkip == {"CommitSkippedWhenUnchanged"}
+\* the seeded class r7: the restore leaves a side file of the database it replaces.  Harmless when nobody has that
+\* database open (ScnClosedBak: the index is rebuilt) - MC_Workers_keepsshm_closed.cfg
+DevKeepsShm == {"BootcheckNeverHits", "RestoreKeepsShm"}
+DevKeepsWal == {"BootcheckNeverHits", "RestoreKeepsWal"}
+DevAsIsKeepsShm == DevAsIs \cup {"RestoreKeepsShm"}
+ScnClosedBak == {s \in ScnPlain \cup ScnProv : s.bak}
 =============================================================================
